@@ -1,5 +1,5 @@
 //! C09: InsertionCost cmp/add/sub, Goal::total_order/fitness, dominance_order on the real code.
-use crate::util::*;
+use vh::util::*;
 use serde_json::{json, Value};
 use std::sync::Arc;
 use vrp_core::construction::heuristics::InsertionCost;
@@ -133,4 +133,8 @@ pub fn run_case(case: &Value) -> Value {
         }
         _ => panic!("unknown op"),
     }
+}
+
+fn main() {
+    vh::main_loop(run_case);
 }
